@@ -3,7 +3,7 @@ import json, sys
 prop, key, status, commit, path = sys.argv[1:6]
 what = ' '.join(sys.argv[6:])
 rec = json.load(open(path))
-case = rec['case'] if 'case' in rec and 'bucket' in rec else rec
+case = rec['case'] if 'case' in rec and ('bucket' in rec or len(rec) <= 3) else rec
 kf = json.load(open('/verif/known_findings.json'))
 kf['findings'] = [e for e in kf['findings'] if not (e['property'] == prop and e['key'] == key)]
 e = {'property': prop, 'key': key, 'status': status, 'what': what, 'repro': case}
